@@ -54,7 +54,7 @@ PROPERTIES = {
         'kani': ['hll', 'hll_slow'],
         'kani_quick': ['hll'],
         'sample_functions': [],
-        'not_decided': ['estimate_count: its only panicking integer operation (1 << register) was a genuine defect, fixed in /repo (17a5c7f); what remains is floating-point arithmetic (cannot panic in Rust) which neither verifier models - a Kani harness over 256 symbolic registers did not finish in 15 minutes; "returns 0 for the empty sketch" is therefore not discharged either',
+        'not_decided': ['estimate_count: its only panicking integer operation (1 << register) was a genuine defect, fixed in /repo (17a5c7f); the Kani harness estimate_count_any_last_register_does_not_panic guards against its return (every value 0..=255 of one register, the others empty: complete for those 256 states). Not decided: states with several non-empty registers (a harness over 256 symbolic registers, or one register at a symbolic index, did not finish in 20 minutes) and the value returned (floating point), so "returns 0 for the empty sketch" is not discharged either',
                         'the 40% error envelope for random elements is a statistical statement about floating point: no contract expresses it'],
     },
     'C19': {
